@@ -35,6 +35,7 @@ func (p *Program) verifyFunc(c *Contract) *FuncResult {
 	}
 	fr := &Frame{ex: ex, fn: fn, contract: c, vals: map[ssa.Value]Val{}, names: map[string]Val{}, cellNames: map[string]*Cell{}, nilFlags: map[ssa.Value]Term{}}
 	entryEnv := &Env{Vars: map[string]Term{}, P: p}
+	ptrParams := map[string]*Cell{}
 	bindParam := func(name string, v ssa.Value, t types.Type) {
 		if pt, ok := t.Underlying().(*types.Pointer); ok {
 			// pointer parameter / captured variable: a cell with unknown initial content
@@ -62,6 +63,7 @@ func (p *Program) verifyFunc(c *Contract) *FuncResult {
 			}
 			fr.vals[v] = &Ptr{cell: cell}
 			fr.cellNames[name] = cell
+			ptrParams[name] = cell
 			return
 		}
 		switch t.Underlying().(type) {
@@ -119,10 +121,16 @@ func (p *Program) verifyFunc(c *Contract) *FuncResult {
 				}
 			}
 			// pointer params: current content
-			for name, cell := range fr.cellNames {
+			for name, cell := range ptrParams {
 				if v, ok := r.st.cells[cell].(Term); ok {
-					if _, isParam := entryEnv.Vars[name]; isParam {
-						env.Vars[name] = v
+					env.Vars[name] = v
+				}
+			}
+			// value parameters keep their entry value even if the body reassigns its local copy
+			for k, v := range entryEnv.Vars {
+				if _, isState := stateSorts[k]; !isState {
+					if _, isPtr := ptrParams[k]; !isPtr {
+						env.Vars[k] = v
 					}
 				}
 			}
